@@ -452,7 +452,9 @@ struct C16World: World {
           Node res; res.k = max_k; uint32_t min_k = max_k;
           std::vector<Node*> order = { &n, &b }; if (s.c & 32) order.push_back(&nodes[(static_cast<size_t>(s.a) + 1) % 3]);
           std::set<Node*> used; std::set<i64> ids_seen;
-          for (Node* x : order) { if (!used.insert(x).second) continue; if (s.c & 16) { S tmp(*x->sk); un.update(std::move(tmp)); } else un.update(*x->sk);
+          std::map<i64, double> in_adj;   // adjusted weight each sample carries in the input sketch it comes from
+          for (Node* x : order) { if (!used.insert(x).second) continue; for (auto it = x->sk->begin(); it != x->sk->end(); ++it) in_adj[(*it).first] = (*it).second;
+            if (s.c & 16) { S tmp(*x->sk); un.update(std::move(tmp)); } else un.update(*x->sk);
             for (auto& kv : x->in) res.in[kv.first] = kv.second; res.total += x->total; res.n += x->n; if (x->n > x->sk->get_num_samples()) min_k = std::min(min_k, x->sk->get_k());   // an input still holding all of its items imposes no k
             for (auto& kv : x->in) if (ids_seen.count(kv.first)) res.may_dup = true; else ids_seen.insert(kv.first); }
           res.sk.reset(new S(un.get_result()));
@@ -460,6 +462,11 @@ struct C16World: World {
           // marked items are absorbed); an input's k does not bind a union with a larger max_k, by design of the gadget
           (void)min_k;
           check(ctx, res, "union get_result", true, max_k);
+          // a union treats every input sample as an item of its adjusted weight: a sample that survives carries that weight (still heavy) or the result's
+          // threshold (which it is lighter than) - never less than it came in with
+          if (!res.may_dup) { for (auto it = res.sk->begin(); it != res.sk->end(); ++it) { auto f = in_adj.find((*it).first);
+              if (f != in_adj.end() && (*it).second < f->second * (1 - 1e-9)) ctx.fail("C16|union-result-sample-lighter-than-in-its-input", "item " + std::to_string((*it).first) + " came in with " + hexd(f->second) + " and has " + hexd((*it).second)); }
+            ctx.probe("union_sample_weights_checked"); }
           if (s.c & 8) { auto bytes = un.serialize(); UN back = UN::deserialize(bytes.data(), bytes.size(), ds::serde<int64_t>(), talloc<int64_t>(1)); Node r2; r2.in = res.in; r2.total = res.total; r2.n = res.n; r2.may_dup = res.may_dup; r2.sk.reset(new S(back.get_result())); check(ctx, r2, "restored union get_result", true, max_k); ctx.fault("checkpoint_restore"); }
           // two differentials on the same inputs: (1) the union fed by reference and the union fed by move, (2) a union that is reset and used again and a fresh
           // one. Which items survive may differ (the paths visit slots in different orders); the shape of the result - k, n, number of samples - and the
